@@ -429,6 +429,10 @@ def predicate(case, out):
             if r[0] == 0:
                 have.add(members[s["key"]])
         ver = obs[3]
+        if out.get("stray"):
+            bad.append(f"the certificate under construction holds {out['stray']} entr{'y' if out['stray'] == 1 else 'ies'} for timeout votes that add() refused")
+        if any(not any(b) for b in obs[1]):
+            bad.append("the certificate under construction holds an entry without signers")
         reached = M.weight(c, have) >= M.quorum(c) and case["view"]["g"] == G and int(case["view"]["e"]) == E
         if (ver[0] == 0) != reached:
             bad.append("assembled timeout certificate: verify verdict differs from 'accepted votes reach the quorum'")
